@@ -178,29 +178,57 @@ def sortStable {α : Type} (lt : α → α → Bool) (l : List α) : List α :=
 def pkOrder (sch : Schema) : List (Nat × Bool) :=
   ((List.range sch.cols.length).filter (fun c => sch.pk.contains c)).map (fun c => (c, false))
 
-def tagFrom {α : Type} : Nat → List α → List (α × Nat)
-  | _, [] => []
-  | n, a :: as => (a, n) :: tagFrom (n + 1) as
-
 def splitSizes {α : Type} : List Nat → List α → List (List α)
   | [], _ => []
   | n :: ns, l => l.take n :: splitSizes ns (l.drop n)
-
-/-- flattened position of a location, `none` when it is dangling. -/
-def flatPos (sizes : List Nat) (l : Loc) : Option Nat :=
-  if l.part < sizes.length ∧ l.idx < sizes.getD l.part 0 then some ((sizes.take l.part).foldl (· + ·) 0 + l.idx) else none
 
 def locOfPos : List Nat → Nat → Nat → Loc
   | [], p, x => ⟨p, x⟩
   | n :: ns, p, x => if x < n then ⟨p, x⟩ else locOfPos ns (p + 1) (x - n)
 
-/-- Go: the net effect of every `partitionssort.Swap` of one sort on one index: a storage row
-whose location is a live slot follows the row stored in that slot. -/
-def relocate (sizes : List Nat) (newPos : Nat → Nat) (h : Heap) (ids : List Nat) : Heap :=
-  ids.foldl (fun h id =>
-    match flatPos sizes (getE h id).loc with
-    | some x => setLoc h id (locOfPos sizes 0 (newPos x))
-    | none => h) h
+def rowAt (parts : List (List Row)) (l : Loc) : Option Row :=
+  match parts[l.part]? with
+  | none => none
+  | some p => p[l.idx]?
+
+def setRow (parts : List (List Row)) (l : Loc) (r : Row) : List (List Row) :=
+  modifyAt (fun p => p.set l.idx r) l.part parts
+
+/-- Go: `partitionssort.Swap` seen from one index row: located at one of the two swapped slots it
+is re-pointed (in place) at the other one. -/
+def swapLoc (la lb l : Loc) : Loc := if l = la then lb else if l = lb then la else l
+
+def relocate (la lb : Loc) (h : Heap) (ids : List Nat) : Heap :=
+  ids.foldl (fun h id => setLoc h id (swapLoc la lb (getE h id).loc)) h
+
+/-- Go: `partitionssort.Swap(i, j)`: exchange the two stored rows, then walk over every row of
+every index storage and re-point those located at either slot. -/
+def swapStep (la lb : Loc) (hd : Heap × TData) : Heap × TData :=
+  match rowAt hd.2.parts la, rowAt hd.2.parts lb with
+  | some ra, some rb =>
+    (hd.2.idx.foldl (relocate la lb) hd.1, { hd.2 with parts := setRow (setRow hd.2.parts la rb) lb ra })
+  | _, _ => hd
+
+/-- position (counted from the head) of the least element: the first one no later element is below. -/
+def minPos (lt : Row → Row → Bool) : Row → Nat → Nat → List Row → Nat
+  | _, best, _, [] => best
+  | m, best, k, x :: xs => if lt x m then minPos lt x k (k + 1) xs else minPos lt m best (k + 1) xs
+
+def swapList {α : Type} (l : List α) (i j : Nat) : List α :=
+  match l[i]?, l[j]? with
+  | some a, some b => (l.set i b).set j a
+  | _, _ => l
+
+/-- The transpositions of a selection sort of the flattened rows (positions in the flattened
+sequence). `sort.Sort` (pdqsort) performs some other sequence of `Swap` calls that also ends in the
+sorted order; for distinct keys the final arrangement of rows *and* of index-row locations is the
+same for every such sequence, because an index row follows the row stored in its slot. -/
+def selSwaps (lt : Row → Row → Bool) : Nat → Nat → List Row → List (Nat × Nat)
+  | 0, _, _ => []
+  | _, _, [] => []
+  | f + 1, k, x :: xs =>
+    let m := minPos lt x 0 1 xs
+    (k, k + m) :: selSwaps lt f (k + 1) (swapList (x :: xs) 0 m).tail
 
 /-- index-key comparison of `sortSecondaryIndexes`: the declared index columns only, NULL first. -/
 def keyLt (env : Env) (d : IdxDef) (a b : List Val) : Bool :=
@@ -215,16 +243,15 @@ def sortSecondary (env : Env) (h : Heap) : List IdxDef → List (List Nat) → L
     sortStable (fun a b => keyLt env d (getE h a).vals (getE h b).vals) ids :: sortSecondary env h ds rest
   | _, idx => idx
 
-/-- Go: `TableData.sortRows`: sort all rows by primary key across the partitions (the sorted
-sequence is laid out over the partition slots in partition order), relocating index rows with
-every swap, then `sortSecondaryIndexes`. -/
+/-- Go: `TableData.sortRows`: `sort.Sort(partitionssort{…})` over all rows across the partitions
+(the sorted sequence is laid out over the partition slots in partition order), every swap
+relocating index rows in place, then `sortSecondaryIndexes`. -/
 def sortRowsP (env : Env) (hd : Heap × TData) : Heap × TData :=
   let sizes := hd.2.parts.map List.length
-  let tagged := tagFrom 0 hd.2.parts.flatten
-  let sorted := sortStable (fun (a b : Row × Nat) => ordLt env.sch (pkOrder env.sch) a.1 b.1) tagged
-  let newPos : Nat → Nat := fun x => (sorted.findIdx? (fun t => t.2 == x)).getD x
-  let h' := hd.2.idx.foldl (relocate sizes newPos) hd.1
-  (h', { parts := splitSizes sizes (sorted.map (·.1)), idx := sortSecondary env h' env.idxs hd.2.idx })
+  let flat := hd.2.parts.flatten
+  let swaps := selSwaps (ordLt env.sch (pkOrder env.sch)) flat.length 0 flat
+  let hd' := swaps.foldl (fun hd ab => swapStep (locOfPos sizes 0 ab.1) (locOfPos sizes 0 ab.2) hd) hd
+  (hd'.1, { hd'.2 with idx := sortSecondary env hd'.1 env.idxs hd'.2.idx })
 
 /-- Go: `ApplyEdits` of both accumulators on `ea.tableData` (in place): deletes, adds, then
 `sortRows` (keyed) or `sortSecondaryIndexes` (keyless). -/
@@ -305,11 +332,9 @@ def runOps (env : Env) : EdSt → List Op → EdSt × Bool
 * otherwise `StatementComplete`: `ApplyEdits`, session data := a copy of the edited data.
 Returns the state afterwards and whether the statement failed. -/
 def runStmt (env : Env) (st : St) (stmt : Stmt) : St × Bool :=
-  let (s1, natural) := runOps env (begin st) stmt.ops
-  if natural || stmt.fin == .err then ({ heap := s1.heap, data := s1.snap }, true)
-  else
-    let s2 := applyNow env s1
-    ({ heap := s2.heap, data := s2.data }, false)
+  let r := runOps env (begin st) stmt.ops
+  if r.2 || stmt.fin == .err then ({ heap := r.1.heap, data := r.1.snap }, true)
+  else ({ heap := (applyNow env r.1).heap, data := (applyNow env r.1).data }, false)
 
 def runHistory (env : Env) : St → List Stmt → St
   | st, [] => st
@@ -317,13 +342,60 @@ def runHistory (env : Env) : St → List Stmt → St
 
 def initSt (env : Env) : St := { heap := [], data := emptyData env }
 
+/-! ## DDL on the stored data -/
+
+/-- Go: `Table.Truncate` → `TableData.truncate`: empty partitions, a fresh (empty) storage map. -/
+def truncateP (env : Env) (st : St) : St := { heap := st.heap, data := emptyData env }
+
+/-- the accumulator after `Insert` calls for `rows` on an empty table (no checks: the rows come
+from the table itself). -/
+def accumulate (env : Env) (rows : List Row) : Ed := rows.foldl (accInsert env.sch) (mkEd [])
+
+/-- Go: `CREATE INDEX` on a table with data: `CreateIndex` registers the index (`env'` has it),
+`BuildIndex` hands out the rewrite editor (`tableEditorForRewrite`: `truncate`), the engine
+re-inserts every stored row (`buildIndex`), `Close` applies the edits. Every index is rebuilt. -/
+def rebuildP (env' : Env) (st : St) : St :=
+  let hd := applyEditsP env' (st.heap, emptyData env') (accumulate env' (st.data.parts.flatten))
+  { heap := hd.1, data := hd.2 }
+
+def dropNth {α : Type} : Nat → List α → List α
+  | _, [] => []
+  | 0, _ :: as => as
+  | n + 1, a :: as => a :: dropNth n as
+
+/-- Go: `errIfDuplicateEntryExist`: two stored rows agree on `cols` and have no NULL there. -/
+def hasDupProj (rows : List Row) (cols : List Nat) : Bool :=
+  anyPair (fun (a b : Row) => !hasNullForAnyCols a cols && proj cols a == proj cols b) rows
+
+def withIdxs (env : Env) (idxs : List IdxDef) : Env :=
+  { env with idxs := idxs,
+             sch := { env.sch with uniques := (idxs.filter (·.unique)).map (fun d => (d.cols, [])) } }
+
+/-- a step of a C16 history. -/
+inductive Step where
+  | stmt (s : Stmt)
+  | trunc
+  | mkidx (d : IdxDef)
+  | rmidx (j : Nat)
+  deriving Repr, Inhabited
+
+/-- one step on (table description, state): the new description, the new state, failed?. -/
+def runStep (env : Env) (st : St) : Step → Env × St × Bool
+  | .stmt s => let r := runStmt env st s; (env, r.1, r.2)
+  | .trunc => (env, truncateP env st, false)
+  | .mkidx d =>
+    if d.unique && hasDupProj st.data.parts.flatten d.cols then (env, st, true)
+    else
+      let env' := withIdxs env (env.idxs ++ [d])
+      (env', rebuildP env' st, false)
+  | .rmidx j =>
+    let env' := withIdxs env (dropNth j env.idxs)
+    (env', { st with data := { st.data with idx := dropNth j st.data.idx } }, false)
+
 /-! ## Observation: what a reader sees -/
 
 /-- Go: `indexScanRowIter.Next`: the row at the storage row's location; dangling locations are skipped. -/
-def resolve (parts : List (List Row)) (l : Loc) : Option Row :=
-  match parts[l.part]? with
-  | none => none
-  | some p => p[l.idx]?
+def resolve (parts : List (List Row)) (l : Loc) : Option Row := rowAt parts l
 
 /-- per index: its storage rows as (key values, row found at the location). -/
 def indexView (st : St) : List (List (List Val × Option Row)) :=
